@@ -74,6 +74,21 @@ def Db.tableMissing (db : Db) (p : Prod) : Bool :=
     | none => false
   | _, _ => false
 
+/-- `-t TAG` on a setup line (`processArgs`: `requestedVRO = [TAG] + vro`, pushed for this line and popped after it —
+also when the line does not resolve or its table cannot be read).  Modelled on the class of tables the harness
+generates: the product the line names has no table lines of its own (undeclared, table file missing, or a leaf), so
+no other line is resolved while the tag is in front of the VRO, and the tag's whole effect is on the line itself:
+the version carrying the tag is taken, whatever version the line writes; without such a version the line is
+resolved as written.  (Threading the pushed VRO into the recursion — a tagged line above a product with
+dependencies — is not modelled.)  `tagged` maps (product, tag) to the declared version carrying the tag. -/
+def applyLineTag (tagged : List ((Str × Str) × Str)) (d : Dep) (tag : Option Str) : Dep :=
+  match tag with
+  | none => d
+  | some t =>
+    match tagged.lookup (d.name, t) with
+    | some v => { d with ver := some v }
+    | none => d
+
 /-- `Eups.findProduct(name, version)` / `findProductFromVRO(name, version)` under the simple rule -/
 def Db.find (db : Db) (n : Str) (v : Option Str) : Option Prod :=
   match v with
@@ -156,18 +171,29 @@ def depsLoop (db : Db) (req : Required)
           depsLoop db req recur fresh top recursive depth ds (acc ++ [⟨p, d.optional, dp⟩])
             { st with edges := st.edges ++ [(top, p)] }
 
+/-- `_unsetupInProgress` (repair of D32): the keys of the products whose unsetup listing is in progress; an
+unsetup line naming one of them inside its own listing contributes only the name.  Before the repair the
+nested listing was started unconditionally and an unsetup line inside a dependency cycle never returned
+(`depsOfPinned`). -/
+abbrev Guard := List (Str × Option Str)
+
 /-- `Table.dependencies` on the table of `top` (fuel = remaining Python stack) -/
-def depsOf (db : Db) : Nat → Required → Prod → Bool → Nat → St → Option (List Entry × St)
-  | 0, _, _, _, _, _ => none
-  | f + 1, req, top, recursive, depth, st =>
+def depsOfG (db : Db) : Nat → Guard → Required → Prod → Bool → Nat → St → Option (List Entry × St)
+  | 0, _, _, _, _, _, _ => none
+  | f + 1, g, req, top, recursive, depth, st =>
     depsLoop db req
-      (fun p d st' => depsOf db f req p true d st')
-      (fun p => (depsOf db f [] p true 0 St.empty).map fun r => r.1.map (·.prod.name))
+      (fun p d st' => depsOfG db f g req p true d st')
+      (fun p => if g.contains (prodkey p) then some []
+                else (depsOfG db f (prodkey p :: g) [] p true 0 St.empty).map fun r => r.1.map (·.prod.name))
       top recursive depth (db.table top) []
       { st with nodes := if st.nodes.contains top then st.nodes else st.nodes ++ [top] }
 
+/-- a listing started from outside: no unsetup listing in progress -/
+abbrev depsOf (db : Db) (f : Nat) (req : Required) (top : Prod) (recursive : Bool) (depth : Nat) (st : St) :
+    Option (List Entry × St) := depsOfG db f [] req top recursive depth st
+
 /-- the fuel the driver uses: more than any recursion the code can complete on this database
-(`C13_fuel_sufficient` proves it for tables without unsetup lines); running out of it corresponds
+(`Lemmas/DepsGuard.lean`, `depsOf_total`: on every database); running out of it would correspond
 to Python's `RecursionError` -/
 def Db.fuel (db : Db) : Nat := (db.decls.length + 2) * (db.decls.length + 2)
 
@@ -358,6 +384,17 @@ def users (sb : SetupBy) (n : Str) (v : Option Str) : List User :=
 
 Not used by the driver: the model mirrors the tree with the repairs.  These definitions say where the
 pinned code failed, for the negation witnesses in `Props/C13.lean`. -/
+
+/-- pinned `Table.dependencies` (before the repair of D32): the nested listing of an unsetup line is started
+unconditionally, with a fresh visited set — inside a dependency cycle it meets the same line again, without end -/
+def depsOfPinned (db : Db) : Nat → Required → Prod → Bool → Nat → St → Option (List Entry × St)
+  | 0, _, _, _, _, _ => none
+  | f + 1, req, top, recursive, depth, st =>
+    depsLoop db req
+      (fun p d st' => depsOfPinned db f req p true d st')
+      (fun p => (depsOfPinned db f [] p true 0 St.empty).map fun r => r.1.map (·.prod.name))
+      top recursive depth (db.table top) []
+      { st with nodes := if st.nodes.contains top then st.nodes else st.nodes ++ [top] }
 
 /-- The pinned `Product.__lt__` compared the tuples `(name, version, flavor)`: Python raises `TypeError`
 when the comparison reaches `None` against a string — same name and exactly one version `None`, or same name
